@@ -19,6 +19,7 @@ CONSTANTS
   JitterChoices = {99999}
   Deviations = {"F12", "F14"}
   MaxApps = 1
+  MaxSucc = 6
   Depth = 22
   BootSize = 0
   WProgress = 60
